@@ -373,7 +373,8 @@ class JobShopSchedulingResult:
         if self._makespan is not None:
             return self._makespan
         makespan: int = max(
-            (scheduled_operations[-1].end_time for scheduled_operations in self.valid_schedule.values())
+            (scheduled_operations[-1].end_time for scheduled_operations in self.valid_schedule.values()),
+            default=0,
         )
         self._makespan = makespan
         return makespan
